@@ -1,0 +1,24 @@
+//go:build verif
+
+package vm
+
+// Verification hooks (build tag "verif" only; see /verif/DESIGN.md). They let a
+// runtime monitor observe which instruction offsets and opcodes the VM actually
+// executes and which constants it loaded. With the tag off the hook is an empty
+// function and nothing else changes.
+
+// VerifStep, when set, is called before each instruction with the VM, the
+// offset of the opcode byte within the executing code slice, and the opcode.
+var VerifStep func(m *VM, pc int, op Opcode)
+
+func verifStep(m *VM, op Opcode) {
+	if f := VerifStep; f != nil {
+		f(m, m.pc-1, op)
+	}
+}
+
+// VerifConstants returns the constant pool the VM loaded from the last bytecode.
+func VerifConstants(m *VM) []Value { return m.constants }
+
+// VerifCodeLen returns the length of the code slice being executed.
+func VerifCodeLen(m *VM) int { return len(m.code) }
